@@ -23,6 +23,6 @@ Your task: make a SMALL change to the library source under {wt}/src (a few lines
 
 Deliver, in the directory {wt}/MUTANT/ :
   - patch.diff : output of `git -C {wt} diff -- src` (only source changes, no test changes)
-  - demo.py : a small self-contained program or pytest file that demonstrates the violation: run as `PYTHONPATH={wt}/src /venv/bin/python {wt}/MUTANT/demo.py` it must exit non-zero (or fail) WITH your change and exit 0 WITHOUT it (verify both: use `git stash` / `git stash pop` or `git diff > patch; git checkout -- src; ...; git apply patch`). It must use only the library's public behaviour (no mocks of the function you changed) and finish in under 60 seconds.
+  - demo.py : a small self-contained program or pytest file that demonstrates the violation: run as `PYTHONPATH={wt}/src /venv/bin/python {wt}/MUTANT/demo.py` it must exit non-zero (or fail) WITH your change and exit 0 WITHOUT it (verify both with `git diff -- src > MUTANT/patch.diff; git checkout -- src; ...; git apply MUTANT/patch.diff`; do NOT use `git stash`: the stash is shared with other worktrees). It must use only the library's public behaviour (no mocks of the function you changed) and finish in under 60 seconds.
   - notes.md : 5-10 lines: what you changed, why the tests do not notice, and exactly what is needed for the breakage to manifest.
 Leave your source change APPLIED in the worktree when you finish. No network is available; use /venv/bin/python. Reply with a short summary (which file/lines, what triggers it, results of the test suite run and of demo.py with and without the change).""")
